@@ -38,7 +38,12 @@ func (t *Dense) Transpose() error {
 	}()
 
 	if t.IsVector() {
-		// no data movement
+		// no data movement: the axis that holds the elements keeps the stride it has
+		for i, d := range expShape {
+			if d != 1 && i < len(expStrides) && i < len(t.AP.strides) {
+				expStrides[i] = t.AP.strides[i]
+			}
+		}
 		return nil
 	}
 
